@@ -10,6 +10,7 @@ pub mod digest;
 pub mod stats;
 pub mod ddmin;
 pub mod pool;
+pub mod sched;
 
 pub use digest::Fnv;
 pub use rng::Rng;
